@@ -8,6 +8,8 @@ rows = []
 for f in sorted(glob.glob('/verif/mutants/results/*.json')):
     r = json.load(open(f)); name = os.path.basename(f)[:-5]
     target = idx.get(name)
+    if target is None and name.startswith('refac_'):
+        target = 'NONE'
     if target is None and name.startswith('seeded_'):
         m = '/verif/seeded/%s/meta.json' % name[7:]
         target = json.load(open(m))['property'] if os.path.exists(m) else name[7:10]
